@@ -74,6 +74,9 @@ main(int argc, char** argv)
     auto tapeGen = gen::container<std::vector<VhTok>>(tokGen);
 
     bool in_shrink = false;
+    uint64_t shrink_budget = getenv("VH_SHRINK_EVALS") ? strtoull(getenv("VH_SHRINK_EVALS"), nullptr, 10) : 4000;
+    double shrink_secs = getenv("VH_SHRINK_SECS") ? atof(getenv("VH_SHRINK_SECS")) : 45.0;
+    double shrink_t0 = 0;
     bool ok = rc::check(std::string("harness ") + spec->harness, [&]() {
         std::vector<VhTok> tape = *tapeGen;
         if ((int)tape.size() > spec->max_len)
@@ -82,12 +85,16 @@ main(int argc, char** argv)
             ++st.skipped;
             return;
         }
+        if (in_shrink && (st.shrink_evals > shrink_budget || fe::now_s() - shrink_t0 > shrink_secs))
+            return; // shrink budget used up: remaining candidates count as passing, the best so far stays
         cur.put(tape.data(), tape.size());
         VhReport r;
         memset(&r, 0, sizeof r);
         vh_run(tape.data(), tape.size(), &r);
         st.account(tape.data(), tape.size(), r, in_shrink);
         if (r.verdict) {
+            if (!in_shrink)
+                shrink_t0 = fe::now_s();
             in_shrink = true; // everything rapidcheck runs after the first failure is shrinking
             st.failed = true;
             st.fail_rep = r;
